@@ -58,6 +58,42 @@ Proof.
     discriminate.
 Qed.
 
+(* since 7cc766b: a topic that a content filtered topic refers to, and a content filtered topic a reader was created on *)
+Lemma delete_topic_with_cft : forall pr f ph parent name p c,
+    find_part f ph = Some p -> In c (pa_cfts p) -> c_rel c = name ->
+    (exists c0, fstep pr f (FDeleteTopic ph parent name) = (f, RErr c0) /\
+                (In name (map t_name (pa_topics p)) -> c0 = E_PRECONDITION)).
+Proof.
+  intros pr f ph parent name p c Hf Hc Hr. cbn [fstep].
+  assert (Hex : existsb (fun c => c_rel c =? name) (pa_cfts p) = true).
+  { apply existsb_exists. exists c; split; auto. apply Z.eqb_eq; auto. }
+  unfold with_part. rewrite Hf.
+  assert (Hid : set_parts f (upd_first (is_part ph) (fun _ => p) (f_parts f)) = f).
+  { unfold find_part in Hf. rewrite (upd_first_same _ _ _ Hf). apply set_parts_id. }
+  unfold delete_topic. destruct (negb (heqb (pa_h p) parent)); [rewrite Hid; eexists; split; [reflexivity|auto]|].
+  destruct (find_first (is_topic name) (pa_topics p)) as [t|] eqn:Ht.
+  - destruct (existsb (uses_topic (t_name t)) (pa_pubs p)); [rewrite Hid; eexists; split; [reflexivity|auto]|].
+    destruct (existsb (uses_topic (t_name t)) (pa_subs p)); [rewrite Hid; eexists; split; [reflexivity|auto]|].
+    rewrite Hex, Hid. eexists; split; [reflexivity|auto].
+  - rewrite Hid. eexists; split; [reflexivity|]. intros Hn. exfalso.
+    apply in_map_iff in Hn. destruct Hn as (t & Htn & Hin).
+    rewrite find_first_none in Ht. specialize (Ht t Hin). unfold is_topic in Ht. rewrite Htn, Z.eqb_refl in Ht.
+    discriminate.
+Qed.
+
+Lemma delete_cft_in_use : forall pr f ph name p g e,
+    find_part f ph = Some p -> In name (map c_name (pa_cfts p)) ->
+    In g (pa_subs p) -> In e (g_eps g) -> e_topic e = name ->
+    fstep pr f (FDeleteCft ph name) = (f, RErr E_PRECONDITION).
+Proof.
+  intros pr f ph name p g e Hf Hn Hg He Ht. cbn [fstep]. apply with_part_unchanged with (p := p); auto.
+  unfold delete_cft. destruct (find_first (is_cft name) (pa_cfts p)) eqn:Hc.
+  - rewrite (existsb_uses name _ g e Hg He Ht). reflexivity.
+  - exfalso. apply in_map_iff in Hn. destruct Hn as (c & Hcn & Hin).
+    rewrite find_first_none in Hc. specialize (Hc c Hin). unfold is_cft in Hc. rewrite Hcn, Z.eqb_refl in Hc.
+    discriminate.
+Qed.
+
 (* ---------------------------------------------------------------- sentence 2: entities that are not there *)
 Definition group_missing (sd : side) (p : part) (gh : handle) : bool :=
   match find_first (is_group gh) (groups sd p) with None => true | Some _ => false end.
@@ -68,15 +104,19 @@ Definition ep_missing (sd : side) (p : part) (gh eh : handle) : bool :=
   end.
 Definition topic_missing (p : part) (name : Z) : bool :=
   match find_first (is_topic name) (pa_topics p) with None => true | Some _ => false end.
+Definition cft_missing (p : part) (name : Z) : bool :=
+  match find_first (is_cft name) (pa_cfts p) with None => true | Some _ => false end.
 
 (* the entity the mail addresses (or, for a creation, the parent / topic it needs) is not in the tree *)
 Definition target_missing (f : factory) (o : fop) : bool :=
   match o with
   | FSetFactoryQos _ | FCreatePart _ => false
   | FDeletePart ph => match find_part f ph with None => true | Some _ => false end
-  | FCreateGroup _ ph _ | FCreateTopic ph _ _ | FCreateCft ph _ _ | FDeleteCft ph _ | FDeleteContained ph
+  | FCreateGroup _ ph _ | FCreateTopic ph _ _ | FCreateCft ph _ _ | FDeleteContained ph
   | FGetPartQos ph | FSetPartQos ph _ | FEnablePart ph =>
       match find_part f ph with None => true | Some _ => false end
+  | FDeleteCft ph name =>
+      match find_part f ph with None => true | Some p => cft_missing p name end
   | FDeleteGroup sd ph parent gh =>
       match find_part f ph with None => true | Some p => heqb parent (pa_h p) && group_missing sd p gh end
   | FDeleteTopic ph parent name =>
@@ -107,6 +147,8 @@ Proof.
     rewrite Hp; cbn [negb]. destruct (find_first (is_group gh) (groups sd p)); [discriminate|reflexivity].
   - (* delete topic *) apply andb_true_iff in H. destruct H as [Hp Hm]. unfold delete_topic, topic_missing in *.
     rewrite Hp; cbn [negb]. destruct (find_first (is_topic name) (pa_topics p)); [discriminate|reflexivity].
+  - (* delete cft *) unfold delete_cft, cft_missing in *.
+    destruct (find_first (is_cft name) (pa_cfts p)); [discriminate|reflexivity].
   - (* create ep *) unfold create_endpoint, group_missing in *. destruct (lookup_topic sd p name); [|reflexivity].
     destruct (find_first (is_group gh) (groups sd p)); [discriminate|reflexivity].
   - (* delete ep *) unfold delete_endpoint, ep_missing in *.
@@ -176,38 +218,36 @@ Proof.
 Qed.
 
 Lemma delete_contained_leaves_empty_and_deletable : forall pr f ph p,
-    find_part f ph = Some p -> pa_cfts p = [] ->
+    find_part f ph = Some p ->
     exists f1 p1,
       fstep pr f (FDeleteContained ph) = (f1, RUnit) /\
-      find_part f1 ph = Some p1 /\ pa_pubs p1 = [] /\ pa_subs p1 = [] /\ pa_topics p1 = [] /\
+      find_part f1 ph = Some p1 /\ pa_pubs p1 = [] /\ pa_subs p1 = [] /\ pa_topics p1 = [] /\ pa_cfts p1 = [] /\
       snd (fstep pr f1 (FDeletePart ph)) = RUnit.
 Proof.
-  intros pr f ph p Hf Hc. cbn [fstep]. unfold with_part. rewrite Hf. cbn [delete_contained].
-  set (p1 := set_topics (set_groups SSub (set_groups SPub p []) []) []).
+  intros pr f ph p Hf. cbn [fstep]. unfold with_part. rewrite Hf. cbn [delete_contained].
+  set (p1 := set_topics (set_cfts (set_groups SSub (set_groups SPub p []) []) []) []).
   eexists; exists p1. split; [reflexivity|].
   assert (Hf1 : find_part (set_parts f (upd_first (is_part ph) (fun _ => p1) (f_parts f))) ph = Some p1).
   { unfold find_part, set_parts; cbn [f_parts]. apply find_part_upd with (p := p); auto. }
   split; [exact Hf1|]. repeat split; try reflexivity.
-  unfold delete_part. rewrite Hf1.
-  assert (He : part_is_empty p1 = true).
-  { unfold part_is_empty, p1. cbn. rewrite Hc. reflexivity. }
-  rewrite He. reflexivity.
+  unfold delete_part. rewrite Hf1. reflexivity.
 Qed.
 
-(* with a content filtered topic the participant stays undeletable: delete_contentfilteredtopic does nothing and
-   delete_participant_contained_entities does not touch content_filtered_topic_list *)
-Definition cft_witness : list fop :=
+(* regression of the former finding C36-cft-not-contained (fixed by 7cc766b) on the model *)
+Definition cft_regression : list fop :=
   [FCreatePart None; FCreateTopic (part_handle 0) 1 None; FCreateCft (part_handle 0) (-1) 1;
-   FDeleteCft (part_handle 0) (-1); FDeleteContained (part_handle 0); FDeletePart (part_handle 0)].
-Lemma delete_contained_refuted_with_cft :
-  snd (frun Debug init_factory cft_witness) =
-  [RHandle (part_handle 0); RHandle (mkH 0 0 0 0 10); RUnit; RUnit; RUnit; RErr E_PRECONDITION].
-Proof. vm_compute. reflexivity. Qed.
+   FDeleteTopic (part_handle 0) (part_handle 0) 1; FDeleteCft (part_handle 0) (-1); FDeleteCft (part_handle 0) (-1);
+   FCreateCft (part_handle 0) (-2) 1; FDeleteContained (part_handle 0); FDeletePart (part_handle 0)].
+Lemma cft_is_a_contained_entity : forall pr,
+  snd (frun pr init_factory cft_regression) =
+  [RHandle (part_handle 0); RHandle (mkH 0 0 0 0 10); RUnit; RErr E_PRECONDITION; RUnit; RErr E_DELETED; RUnit; RUnit;
+   RUnit].
+Proof. intros [|]; vm_compute; reflexivity. Qed.
 
 (* a failed delete leaves every entity answering: the state is literally the same *)
 Lemma failed_delete_changes_nothing : forall pr f o f' c,
     (match o with
-     | FDeletePart _ | FDeleteGroup _ _ _ _ | FDeleteTopic _ _ _ | FDeleteEp _ _ _ _ => True
+     | FDeletePart _ | FDeleteGroup _ _ _ _ | FDeleteTopic _ _ _ | FDeleteEp _ _ _ _ | FDeleteCft _ _ => True
      | _ => False end) ->
     fstep pr f o = (f', RErr c) -> f' = f.
 Proof.
@@ -228,7 +268,14 @@ Proof.
     destruct (negb (heqb (pa_h p) parent)); [inversion H; subst; auto|].
     destruct (find_first (is_topic name) (pa_topics p)); [|inversion H; subst; auto].
     destruct (existsb (uses_topic (t_name t)) (pa_pubs p)); [inversion H; subst; auto|].
-    destruct (existsb (uses_topic (t_name t)) (pa_subs p)); inversion H; subst; auto.
+    destruct (existsb (uses_topic (t_name t)) (pa_subs p)); [inversion H; subst; auto|].
+    destruct (existsb (fun c => c_rel c =? name) (pa_cfts p)); inversion H; subst; auto.
+  - unfold with_part in H. destruct (find_part f ph) as [p|] eqn:Hf; [|inversion H; auto].
+    unfold delete_cft in H.
+    assert (Hid : set_parts f (upd_first (is_part ph) (fun _ => p) (f_parts f)) = f).
+    { unfold find_part in Hf. rewrite (upd_first_same _ _ _ Hf). apply set_parts_id. }
+    destruct (find_first (is_cft name) (pa_cfts p)); [|inversion H; subst; auto].
+    destruct (existsb (uses_topic name) (pa_subs p)); inversion H; subst; auto.
   - unfold with_part in H. destruct (find_part f ph) as [p|] eqn:Hf; [|inversion H; auto].
     unfold delete_endpoint in H.
     assert (Hid : set_parts f (upd_first (is_part ph) (fun _ => p) (f_parts f)) = f).
